@@ -122,7 +122,9 @@ def gen_spec(rng):
         'sfckeys': ['PRSS', 'T02M', 'U10M'][:nsfc],
         'laykeys': ['TEMP', 'UWND'][:nlay],
         'levels': [1.0] + [round(0.95 - 0.1 * i, 3) for i in range(nz)],
-        'year': int(rng.integers(1, 30)), 'month': int(rng.integers(1, 13)),
+        # two-digit label years: 2001-2029, or an archive of the 1990s
+        'year': int(rng.integers(1, 30)) if rng.random() < 0.75 else
+        int(rng.integers(-10, 0)), 'month': int(rng.integers(1, 13)),
         'day': int(rng.integers(1, 28)), 'hour': int(rng.choice([0, 6, 12,
                                                                 18])),
         'dhour': int(rng.choice([1, 3, 6, 12, 24])),
